@@ -38,7 +38,11 @@ Definition model_answer_run (ds : dataset) (q : query) (p : pop) : list (list (o
   finalize_select (q_sel q) (model_pattern_run ds q p).
 
 (* the classifier of the known findings (Classes.v) and the hypotheses of C01_pattern, per case *)
-Require Import KV.Sparql.Sem KV.Sparql.Bridge KV.Sparql.Classes KV.Sparql.PatternProofs.
+Require Import KV.Sparql.Sem KV.Sparql.Bridge KV.Sparql.Classes KV.Sparql.Typing KV.Sparql.PatternProofs.
 Definition classify_run (q : query) : list N * bool := classify q.
 Definition coverage_run (ds : dataset) (q : query) : bool * bool :=
   (proved_fragment q, agree (mk_view ds (q_from q) (q_from_named q)) None (sel_where (q_sel q))).
+
+(* the syntactic hypotheses of C01_pattern_syntactic: (noerr, typed) *)
+Definition syntactic_run (ds : dataset) (q : query) : bool * bool :=
+  (noerr (sel_where (q_sel q)), typed (mk_view ds (q_from q) (q_from_named q)) (sel_where (q_sel q))).
